@@ -176,7 +176,9 @@ func c01Typestate(c *Ctx) {
 			} else if p.Exit != "loop" {
 				add("accepted %s but the loop ends", row.name)
 			}
-		case p.Pkt == dataT && (p.Start == chCreate || p.Start == opened) && p.Exit == "loop":
+		case p.Pkt == dataT && (p.Start == chCreate || p.Start == opened) && (p.Exit == "loop" || p.Exit == "return" && !p.RetNil):
+			// (a DATA packet whose relay to the host fails may end the tunnel with an error: the
+			// processor is not used again, C01/state-owner)
 			for _, s := range sets {
 				if s.Int != opened {
 					add("DATA moves the state to %d", s.Int)
@@ -416,16 +418,17 @@ func c01StateOwner(c *Ctx) {
 			case n == protoPkg+".readMessage":
 				c.Check(sf == "(*cmd/rdpgw/protocol.Tunnel).Read", rule, "readMessage in "+sf, ci.Pos(), "only Tunnel.Read frames packets", "readMessage is called outside Tunnel.Read")
 			case strings.HasSuffix(n, "transport.Transport).ReadPacket"):
-				c.Check(sf == "cmd/rdpgw/protocol.readMessage", rule, "ReadPacket in "+sf, ci.Pos(), "only readMessage reads the inbound transport", "the inbound transport is read outside readMessage")
+				okRd := sf == "cmd/rdpgw/protocol.readMessage" || c.onlyCalledFromAny(fn, map[string]bool{"cmd/rdpgw/protocol.readMessage": true}, 0)
+				c.Check(okRd, rule, "ReadPacket in "+sf, ci.Pos(), "only readMessage (or a helper only it calls) reads the inbound transport", "the inbound transport is read outside readMessage")
 			}
 		}
 	}
 	if nWrites == 0 {
 		c.Note("no explicit store to Processor.state found in NewProcessor (zero value)")
 	}
-	c.Floor(rule, 6, "state writers, 2 creation sites, 3 readers")
-	if nSites < 2 {
-		c.Undecided(rule, "NewProcessor sites", token.NoPos, "only %d NewProcessor call sites found (2 confirmed by hand)", nSites)
+	c.Floor(rule, 5, "state writers, creation sites (two on the pinned tree, one when both handlers share a helper), 3 readers")
+	if nSites < 1 {
+		c.Undecided(rule, "NewProcessor sites", token.NoPos, "no NewProcessor call site found")
 	}
 }
 
